@@ -1110,6 +1110,17 @@ impl feoxdb::verif::io::Observer for WriteLog {
     }
 }
 
+/// the standing invariants of a store at rest, at the end of a case (every call returned)
+fn report_inv(out: &mut Out, store: &FeoxStore, flushed_path: Option<&str>, ctx: &str) {
+    let mut found = feox_verif_harness::inv::quiescent(store);
+    if let Some(p) = flushed_path { found.extend(feox_verif_harness::inv::after_flush(store, p)); }
+    for f in found.iter().take(2) {
+        for p in f.props {
+            out.failures.push(format!("{}\t{}: {}\t-", p, ctx, f.what));
+        }
+    }
+}
+
 fn pattern(tag: u8, len: usize) -> Vec<u8> {
     (0..len).map(|i| tag ^ (i as u8).wrapping_mul(31)).collect()
 }
@@ -1314,6 +1325,7 @@ fn sweep_race_case(rng: &mut Rng, out: &mut Out, ctl: &Arc<Ctl>, dir: &str, idx:
     if store.len() != store.verif_snapshot().len() && bad.is_none() {
         bad = Some(format!("after the sweeper batch len() = {} but the index holds {} keys", store.len(), store.verif_snapshot().len()));
     }
+    report_inv(out, &store, None, "after a sweeper / writer race");
     if let Some(b) = bad { out.failures.push(format!("C11\tsweeper racing with a writer ({}): {}\t-", if mem { "memory-only" } else { "persistent" }, b)); }
     {
         let mut g = ctl.slots.lock().unwrap();
@@ -1525,6 +1537,7 @@ fn race_case(rng: &mut Rng, out: &mut Out, ctl: &Arc<Ctl>, wl: &Arc<WriteLog>, d
             other => { if bad.is_none() { bad = Some(format!("filler key {} reads {:?} after the race", hex(k), other.map(|x| x.len()))); } }
         }
     }
+    report_inv(out, &store, Some(&path), "after a read / retirement race (all calls returned, flush acknowledged)");
     if with_mate {
         let got = store.get(&mate).ok();
         if got != mate_now && bad.is_none() {
